@@ -362,3 +362,57 @@ func RunChain(ctx *fiber.Ctx, handlers []fiber.Handler) error {
 	}
 	return nil
 }
+
+// AppUse records the middlewares of app.Use(...) as a route with method "USE" (they apply to every route registered later).
+func AppUse(app *fiber.App, args ...interface{}) fiber.Router {
+	var hs []fiber.Handler
+	prefix := ""
+	for _, a := range args {
+		switch v := a.(type) {
+		case string:
+			prefix = v
+		case fiber.Handler:
+			hs = append(hs, v)
+		}
+	}
+	return appAdd(app, "USE", prefix, hs)
+}
+
+// ChainFor returns the handlers a request for the registered route (method, path pattern) runs through: the middlewares
+// installed with Use before the route was registered, then the route's own handlers; nil if no such route exists.
+func ChainFor(method, path string) []fiber.Handler {
+	var chain []fiber.Handler
+	for _, rt := range Routes {
+		if rt.Method == "USE" {
+			if rt.Path == "" || rt.Path == "/" {
+				chain = append(chain, rt.Handlers...)
+			}
+			continue
+		}
+		if rt.Method == method && rt.Path == path {
+			return append(chain, rt.Handlers...)
+		}
+	}
+	return nil
+}
+
+// ChainTail is ChainFor restricted to the last nUse middlewares installed with Use plus the route's own handlers (for
+// harnesses that start after authentication).
+func ChainTail(method, path string, nUse int) []fiber.Handler {
+	var uses []fiber.Handler
+	for _, rt := range Routes {
+		if rt.Method == "USE" {
+			if rt.Path == "" || rt.Path == "/" {
+				uses = append(uses, rt.Handlers...)
+			}
+			continue
+		}
+		if rt.Method == method && rt.Path == path {
+			if len(uses) > nUse {
+				uses = uses[len(uses)-nUse:]
+			}
+			return append(append([]fiber.Handler{}, uses...), rt.Handlers...)
+		}
+	}
+	return nil
+}
